@@ -179,13 +179,14 @@ def problems(name_key, cf):
     if qm is not None:
         d, dh = cf["dwt_depth"], cf["dwt_depth_ho"]
         if _is_int(d) and _is_int(dh) and d >= 0 and dh >= 0:
-            shape = quant_matrix_shape(d, dh)
             try:
                 got = {lvl: set(orients.keys()) for lvl, orients in qm.items()}
             except Exception:
                 got = None
-            if got != shape:
-                bad("quant-matrix-shape", "quantisation matrix %r does not have the shape for dwt_depth=%d dwt_depth_ho=%d" % (qm, d, dh))
+            # compare sizes first: the depths may be astronomically large while
+            # the matrix actually held in memory is necessarily small
+            if got is None or len(got) != d + dh + 1 or got != quant_matrix_shape(d, dh):
+                bad("quant-matrix-shape", "quantisation matrix %s does not have the shape for dwt_depth=%d dwt_depth_ho=%d" % (repr(qm)[:300], d, dh))
             else:
                 for lvl, orients in qm.items():
                     for o, v in orients.items():
